@@ -55,6 +55,37 @@ def run(ctx):
             found = True
         elif not decsuite.same_trace(mo.get(i), base.get(2 * i)):
             broken.append("correspondence threads: single-instance model trace differs from the implementation on history %d" % i)
+    # the same bytes through a source that segments them differently (short reads of 1..3 bytes, as a pipe, a socket
+    # or a chained reader may deliver them): the trace must not depend on the segmentation
+    seg = []
+    nseg = 0
+    for (i, o, ops) in cases[: (600 if thorough else 150)]:
+        ops2 = [("S:" + op[2:]) if op.startswith("D:") else op for op in ops]
+        if not any(op.startswith("S:") for op in ops2):
+            continue
+        seg.append((3 * i, o, ops2))
+        seg.append((3 * i + 1, o, ["M:%d" % (1 + (ctx.seed * 7919 + i) % 1000003)] + ops2))
+        seg.append((3 * i + 2, o, ["M:%d" % (2 + (ctx.seed * 104729 + 3 * i) % 1000003)] + ops2))
+    sg = decsuite.run_impl(ctx, "c17-seg", seg)
+    sm = decsuite.run_model(ctx, "c17-seg-model", [c for c in seg if c[0] % 3 == 0])
+    for (idx, o, ops) in seg:
+        if idx % 3 == 0:
+            if not decsuite.same_trace(sm.get(idx), sg.get(idx)):
+                broken.append("correspondence threads: model trace differs from the implementation on streamed history %d" % idx)
+            continue
+        whole = sg.get(idx - idx % 3)
+        part = sg.get(idx, [])[1:]
+        nseg += 1
+        if whole != part:
+            k = next((j for j in range(min(len(whole), len(part))) if whole[j] != part[j]), min(len(whole), len(part)))
+            ctx.violation({"kind": "threads", "class_key": "segmentation", "options": o, "ops": ops, "threads": 1, "schedule_seed": 0,
+                           "spec": "decoding is a function of the options and the sequence of bytes supplied, however the source hands them out",
+                           "implementation": {"whole_reads": [t[:60] for t in whole[k:k + 2]], "short_reads": [t[:60] for t in part[k:k + 2]], "first_differing_call": k}},
+                          "history %d decodes differently when the source delivers its bytes in short reads" % (idx // 3))
+            found = True
+    ctx.count("segmentation (same bytes through a source handing out 1..3 bytes per read)", len(seg), set(c[0] for c in seg if c[0] % 3),
+              sample={"ops": [o[:50] for o in seg[1][2]]} if len(seg) > 1 else None,
+              note="%d streamed histories x 2 short-read patterns compared with whole reads and with the model" % (len(seg) // 3))
     # a second process: same outputs again
     again = decsuite.run_impl(ctx, "c17-seq2", rep)
     if again != base:
